@@ -419,6 +419,7 @@ func RunRemoteDkg(ctx context.Context, sc *DkgScenario, binary string, log *Log)
 	data := rootBytes("D")
 	root := SigningRoot([32]byte(data), domain)
 	listed := map[uint64]bool{}
+	shareKeys := map[uint64][]byte{}
 	sigs := map[uint64]bls.Sign{}
 	for _, id := range ids {
 		c, err := dial(id)
@@ -433,6 +434,7 @@ func RunRemoteDkg(ctx context.Context, sc *DkgScenario, binary string, log *Log)
 				if a.GetName() == sc.Account {
 					listed[id] = true
 					share = a.GetPublicKey()
+					shareKeys[id] = share
 					listOK = hex.EncodeToString(a.GetCompositePublicKey()) == composite
 				}
 			}
@@ -458,6 +460,24 @@ func RunRemoteDkg(ctx context.Context, sc *DkgScenario, binary string, log *Log)
 	}
 	if ok {
 		thresholdEvent(log, parts, sigs, composite, int(sc.T), root)
+	}
+	if ok && len(sc.Duties) > 0 {
+		// C14: route duties to the running binaries over TLS (client c1), one connection per instance
+		conns := map[uint64]*grpc.ClientConn{}
+		for _, id := range ids {
+			if c, err := dial(id); err == nil {
+				conns[id] = c
+			}
+		}
+		runDutiesWith(ctx, sc, shareKeys, func(id uint64) SignerAPI {
+			if c := conns[id]; c != nil {
+				return clientSig{pb.NewSignerClient(c)}
+			}
+			return nil
+		}, composite, log)
+		for _, c := range conns {
+			_ = c.Close()
+		}
 	}
 	// stop the binaries; read what they left on disk
 	for _, id := range ids {
